@@ -28,23 +28,32 @@ func dmaScenarios(thorough bool) []harness.Scenario {
 	}
 	// one queue: H2D across a page boundary (two GPUs), then D2H of a sub-range
 	add(dmaCfg{Name: "b/2gpu/h2d-then-d2h/page-crossing", NGPU: 2, Pages: 2, MaxReq: 4,
-		Jobs: []dmaJob{{0, true, bPage - 70, 140}, {0, false, bPage - 65, 130}}}, bound)
+		Jobs: []dmaJob{{Queue: 0, H2D: true, Off: bPage - 70, Len: 140}, {Queue: 0, H2D: false, Off: bPage - 65, Len: 130}}}, bound)
 	// unaligned short copies inside one line and across one line boundary
 	add(dmaCfg{Name: "b/1gpu/unaligned-lines", NGPU: 1, Pages: 1, MaxReq: 4,
-		Jobs: []dmaJob{{0, true, 3, 61}, {0, true, 63, 3}, {0, false, 1, 67}}}, bound)
+		Jobs: []dmaJob{{Queue: 0, H2D: true, Off: 3, Len: 61}, {Queue: 0, H2D: true, Off: 63, Len: 3}, {Queue: 0, H2D: false, Off: 1, Len: 67}}}, bound)
 	// two queues in flight at once, disjoint ranges, DMA limited to one request at a time
 	add(dmaCfg{Name: "b/1gpu/two-queues/maxreq1", NGPU: 1, Pages: 1, MaxReq: 1,
-		Jobs: []dmaJob{{0, true, 0, 65}, {1, true, 128, 70}, {0, false, 0, 65}, {1, false, 130, 64}}}, bound)
+		Jobs: []dmaJob{{Queue: 0, H2D: true, Off: 0, Len: 65}, {Queue: 1, H2D: true, Off: 128, Len: 70}, {Queue: 0, H2D: false, Off: 0, Len: 65}, {Queue: 1, H2D: false, Off: 130, Len: 64}}}, bound)
 	add(dmaCfg{Name: "b/2gpu/two-queues/maxreq2/cycles3", NGPU: 2, Pages: 2, MaxReq: 2, Cycles: 3,
-		Jobs: []dmaJob{{0, true, bPage - 3, 67}, {1, true, 200, 64}, {1, false, 199, 66}, {0, false, bPage - 1, 2}}}, bound)
+		Jobs: []dmaJob{{Queue: 0, H2D: true, Off: bPage - 3, Len: 67}, {Queue: 1, H2D: true, Off: 200, Len: 64}, {Queue: 1, H2D: false, Off: 199, Len: 66}, {Queue: 0, H2D: false, Off: bPage - 1, Len: 2}}}, bound)
 	// buffers dirty as after a kernel: every copy is preceded by a flush of BOTH GPUs although it touches one
 	add(dmaCfg{Name: "b/2gpu/dirty/flush-all-copy-one", NGPU: 2, Pages: 2, MaxReq: 4, Dirty: true,
-		Jobs: []dmaJob{{0, true, 5, 60}, {0, false, 5, 60}}}, bound)
+		Jobs: []dmaJob{{Queue: 0, H2D: true, Off: 5, Len: 60}, {Queue: 0, H2D: false, Off: 5, Len: 60}}}, bound)
+	// kernels on two queues of ONE process, each followed by a D2H of its output: the explorer owns the kernels'
+	// completion times, the flush acknowledgement delays and the memory responses
+	add(dmaCfg{Name: "b/1gpu/two-queues/kernel-then-d2h", NGPU: 1, Pages: 1, MaxReq: 4,
+		Jobs: []dmaJob{{Queue: 0, Kernel: true, Off: 0, Len: 70}, {Queue: 1, Kernel: true, Off: 256, Len: 66}, {Queue: 0, Off: 0, Len: 70}, {Queue: 1, Off: 255, Len: 68}}}, bound)
+	add(dmaCfg{Name: "b/1gpu/sibling-contexts/kernel-then-d2h", NGPU: 1, Pages: 1, MaxReq: 4, QueueCtx: []int{0, 1},
+		Jobs: []dmaJob{{Queue: 0, Kernel: true, Off: 3, Len: 61}, {Queue: 1, Kernel: true, Off: 128, Len: 64}, {Queue: 0, Off: 3, Len: 61}, {Queue: 1, Off: 128, Len: 64}}}, bound)
 	if thorough {
+		add(dmaCfg{Name: "b/2gpu/two-queues/kernel-then-d2h-then-h2d/page-crossing", NGPU: 2, Pages: 2, MaxReq: 2, QueueCtx: []int{0, 1},
+			Jobs: []dmaJob{{Queue: 0, Kernel: true, Off: bPage - 40, Len: 80}, {Queue: 1, Kernel: true, Off: 512, Len: 64}, {Queue: 0, Off: bPage - 40, Len: 80},
+				{Queue: 1, Off: 512, Len: 64}, {Queue: 1, H2D: true, Off: 512, Len: 32}, {Queue: 1, Off: 510, Len: 40}}}, 2)
 		add(dmaCfg{Name: "b/3gpu/three-pages/4KiB-pages", NGPU: 3, Pages: 3, MaxReq: 4, Log2Page: 12,
-			Jobs: []dmaJob{{0, true, 4096 - 3, 4096 + 5}, {0, false, 4096 - 1, 4096 + 2}}}, 1)
+			Jobs: []dmaJob{{Queue: 0, H2D: true, Off: 4096 - 3, Len: 4096 + 5}, {Queue: 0, H2D: false, Off: 4096 - 1, Len: 4096 + 2}}}, 1)
 		add(dmaCfg{Name: "b/4gpu/two-queues", NGPU: 4, Pages: 4, MaxReq: 4, Cycles: 1,
-			Jobs: []dmaJob{{0, true, bPage - 1, 66}, {1, true, 3*bPage - 65, 129}, {0, false, bPage - 1, 66}, {1, false, 3*bPage - 64, 127}}}, 2)
+			Jobs: []dmaJob{{Queue: 0, H2D: true, Off: bPage - 1, Len: 66}, {Queue: 1, H2D: true, Off: 3*bPage - 65, Len: 129}, {Queue: 0, H2D: false, Off: bPage - 1, Len: 66}, {Queue: 1, H2D: false, Off: 3*bPage - 64, Len: 127}}}, 2)
 	}
 	return scs
 }
@@ -68,7 +77,7 @@ func dmaLattice(thorough bool) []dmaCfg {
 					continue // long copies only add more of the same 64-byte transactions
 				}
 				out = append(out, dmaCfg{Name: fmt.Sprintf("b-lattice/%dgpu/[%d,%d)", ng, lo, hi), NGPU: ng, Pages: 2, MaxReq: 4, NoStall: true, NoDelays: true,
-					Jobs: []dmaJob{{0, true, lo, hi - lo}, {0, false, lo, hi - lo}}})
+					Jobs: []dmaJob{{Queue: 0, H2D: true, Off: lo, Len: hi - lo}, {Queue: 0, H2D: false, Off: lo, Len: hi - lo}}})
 			}
 		}
 	}
@@ -76,7 +85,7 @@ func dmaLattice(thorough bool) []dmaCfg {
 	for _, lo := range []uint64{4096 - 65, 4096 - 1, 4096} {
 		for _, hi := range []uint64{2 * 4096, 2*4096 + 1, 2*4096 + 65} {
 			out = append(out, dmaCfg{Name: fmt.Sprintf("b-lattice/3gpu/4KiB/[%d,%d)", lo, hi), NGPU: 3, Pages: 3, MaxReq: 4, Log2Page: 12, NoStall: true, NoDelays: true,
-				Jobs: []dmaJob{{0, true, lo, hi - lo}, {0, false, lo, hi - lo}}})
+				Jobs: []dmaJob{{Queue: 0, H2D: true, Off: lo, Len: hi - lo}, {Queue: 0, H2D: false, Off: lo, Len: hi - lo}}})
 		}
 	}
 	return out
